@@ -163,6 +163,13 @@ PLANS['C20'] = {
                       keyfn=lambda ev: (ev.get('a'), ev.get('cname', ev.get('name', '')), json.dumps(ev.get('cargs', ev.get('g')))[:300]) if ev.get('a') in ('ccall', 'mod') else None),
 }
 
+PLANS['C08'] = {
+    'level': 'model_checking', 'tv_spec': 'TV_Presolve',
+    'run': api_runner({'quick': [('presolve', 40, 2, 16)], 'thorough': [('presolve', 500, 3, 16)]}, tv_spec='TV_Presolve',
+                      rule='one evaluation = one simplify() or one unsimplify() of the stand-alone SPxMainSM on a witnessed LP: verdict truth, and for every optimal vertex of the reduced LP (enumerated exactly, re-verified by TLC) the postsolved certificate, objective value and basis checked exactly',
+                      keyfn=lambda ev: (ev.get('a'), ev.get('result'), json.dumps(ev.get('red', ev.get('inq')))[:400]) if ev.get('a') in ('simplify', 'unsimp') else None),
+}
+
 def params_runner(sizes):
     def run(ctx):
         bdir = ctx['build']('rel', ['params_drv'])
